@@ -26,6 +26,9 @@ type c15Case struct {
 	Nodes    []c15Node `json:"nodes"`
 	Replicas string    `json:"replicas"`
 	Selector bool      `json:"canary_selector_pool_x"`
+	// SelShape: how "pool = x" is written: "" matchLabels; "in2" pool In (x, y); "exists+notin2" pool Exists and
+	// pool NotIn (a, b) - all equivalent over the node alphabet (the label is x or absent)
+	SelShape string `json:"selector_shape,omitempty"`
 	Keys     bool      `json:"antiaffinity_zone"`
 	Prev     string    `json:"previous_list"` // empty valid invalid ghost
 	Paused   string    `json:"paused"`        // "", annotation, condition
@@ -35,6 +38,13 @@ func c15Build(c c15Case, now time.Time) *w.State {
 	eds := w.NewEDS("ns", "foo", "B", w.WithFrequency(10*time.Second), w.WithCanary(c.Replicas, 10*time.Minute, 0, "auto"))
 	if c.Selector {
 		eds.Spec.Strategy.Canary.NodeSelector = &metav1.LabelSelector{MatchLabels: map[string]string{"pool": "x"}}
+		switch c.SelShape {
+		case "in2":
+			eds.Spec.Strategy.Canary.NodeSelector = &metav1.LabelSelector{MatchExpressions: []metav1.LabelSelectorRequirement{{Key: "pool", Operator: metav1.LabelSelectorOpIn, Values: []string{"x", "y"}}}}
+		case "exists+notin2":
+			eds.Spec.Strategy.Canary.NodeSelector = &metav1.LabelSelector{MatchExpressions: []metav1.LabelSelectorRequirement{{Key: "pool", Operator: metav1.LabelSelectorOpExists},
+				{Key: "pool", Operator: metav1.LabelSelectorOpNotIn, Values: []string{"a", "b"}}}}
+		}
 	}
 	if c.Keys {
 		eds.Spec.Strategy.Canary.NodeAntiAffinityKeys = []string{"zone"}
@@ -167,10 +177,15 @@ func TestC15(t *testing.T) {
 				for _, sel := range []bool{false, true} {
 					for _, keys := range []bool{false, true} {
 						for _, prev := range []string{"empty", "valid", "invalid", "ghost", "all", "all-but-first"} {
-							cases = append(cases, c15Case{append([]c15Node{}, cur...), r, sel, keys, prev, ""})
+							cases = append(cases, c15Case{Nodes: append([]c15Node{}, cur...), Replicas: r, Selector: sel, Keys: keys, Prev: prev})
+							if sel && (prev == "empty" || prev == "valid") {
+								for _, shape := range []string{"in2", "exists+notin2"} {
+									cases = append(cases, c15Case{Nodes: append([]c15Node{}, cur...), Replicas: r, Selector: sel, SelShape: shape, Keys: keys, Prev: prev})
+								}
+							}
 							if !keys && !sel { // a paused canary is still an active canary: the list must still be completed
-								cases = append(cases, c15Case{append([]c15Node{}, cur...), r, sel, keys, prev, "annotation"})
-								cases = append(cases, c15Case{append([]c15Node{}, cur...), r, sel, keys, prev, "condition"})
+								cases = append(cases, c15Case{Nodes: append([]c15Node{}, cur...), Replicas: r, Selector: sel, Keys: keys, Prev: prev, Paused: "annotation"})
+								cases = append(cases, c15Case{Nodes: append([]c15Node{}, cur...), Replicas: r, Selector: sel, Keys: keys, Prev: prev, Paused: "condition"})
 							}
 						}
 					}
